@@ -106,7 +106,41 @@ theorem fragC_scalar {env : Env} {file : AFile} {G : List String} {Γ : Ctx} {K 
     simp only [fragC, Bool.or_eq_true] at h
     cases f with
     | var name fty =>
-      rcases h with ((h | h) | h) | h
+      rcases h with (((h | h) | h) | h) | h
+      rotate_left 4
+      · simp only [vecCallOK, Bool.and_eq_true, beq_iff_eq] at h
+        obtain ⟨_, hcase⟩ := h
+        simp only [CExpr.annTy]
+        by_cases h1 : name = "vec_new"
+        · rw [if_pos h1] at hcase
+          cases args <;> cases ty <;> simp only at hcase <;> first | (cases hcase; done) | exact valTy_flat hcase
+        · rw [if_neg h1] at hcase
+          by_cases h2 : name = "vec_push"
+          · rw [if_pos h2] at hcase
+            cases ty <;> simp only [Bool.and_eq_true] at hcase <;> first | (cases hcase; done) | exact valTy_flat hcase.2
+          · rw [if_neg h2] at hcase
+            by_cases h3 : name = "vec_get"
+            · rw [if_pos h3] at hcase
+              cases args with
+              | nil => cases hcase
+              | cons a rest =>
+                cases rest with
+                | nil => cases hcase
+                | cons i rest =>
+                  simp only [Bool.and_eq_true] at hcase
+                  have := valTy_flat hcase.2
+                  simpa [flatTy] using this
+            · rw [if_neg h3] at hcase
+              by_cases h4 : name = "vec_len"
+              · rw [if_pos h4] at hcase
+                cases args with
+                | nil => cases hcase
+                | cons a rest =>
+                  simp only at hcase
+                  cases haty : a.ty with
+                  | vec e => rw [haty] at hcase; simp only [Bool.and_eq_true] at hcase; exact scalarEq_flat hcase.1.2
+                  | _ => rw [haty] at hcase; cases hcase
+              · rw [if_neg h4] at hcase; cases hcase
       rotate_left 3
       · simp only [localCallOK] at h
         cases hlk : lookupTy Γ name with
@@ -175,8 +209,8 @@ theorem fragC_scalar {env : Env} {file : AFile} {G : List String} {Γ : Ctx} {K 
                 · rw [if_pos h2] at hif; simp only [Bool.and_eq_true] at hif; exact scalarEq_flat hif.2
                 · rw [if_neg h2] at hif; cases hif
             | _ => rw [haty] at hcase; cases hcase
-    | prim p t => simp [callOK, refCallOK, arrCallOK, localCallOK] at h
-    | tag i t => simp [callOK, refCallOK, arrCallOK, localCallOK] at h
+    | prim p t => simp [callOK, refCallOK, arrCallOK, localCallOK, vecCallOK] at h
+    | tag i t => simp [callOK, refCallOK, arrCallOK, localCallOK, vecCallOK] at h
   | ite c t e ty => simp only [fragC, Bool.and_eq_true] at h; exact scalarEq_scalar_right h.1.2
   | «while» c b ty => simp only [fragC, Bool.and_eq_true] at h; exact scalarEq_flat h.2
   | matchE s arms d ty => simp only [fragC, Bool.and_eq_true] at h; exact h.1.2
@@ -245,7 +279,7 @@ theorem let_body {env : Env} {η η1 : Hp} {file : AFile} {G : List String} {P :
     (hpre : BlockS F gρ gw (.varDecl (vn x) T init :: d1) (.ok (D1 ++ (vn x, gv) :: gρ, .normal) gw1))
     (hD1 : ∀ y, y ∈ keys D1 → y ∈ ndDecls d1)
     (hinv : GInv Bad ((.varDecl (vn x) T init :: d1) ++ (compileA env m st2 body).1) gρ)
-    (hrel0 : EnvRel env η Γ ρ gρ) (hle1 : η.le η1) (hkrel : KRel K ρ) (h3 : toGV env η1 vv = some gv) (h4 : HasTy env η1 vv tx) (hw1 : WRel env η1 w1 gw1)
+    (hrel0 : EnvRel env η Γ ρ gρ) (hle1 : η.le η1) (hkrel : KRel K ρ) (h3 : VRel env η1 vv tx gv) (h4 : HasTy env η1 vv tx) (hw1 : WRel env η1 w1 gw1)
     (hfb : fragA env file G ((x, tx) :: Γ) (eraseK K x) body = true) (htgt : TgtOK m Γ gρ (aTy body)) (hus : "_" ∈ Bad)
     (hfx : FCtx file G Bad η) (hcal : ∀ c, c ∈ calleesA (x :: Γ.map (·.1)) body → c ∈ Bad) :
     Concl env η F ((.varDecl (vn x) T init :: d1) ++ (compileA env m st2 body).1) m gρ gw (aTy body)
@@ -439,7 +473,7 @@ theorem let_order {env : Env} {η : Hp} {file : AFile} {G : List String} {P : Pr
     (hcal : ∀ c, c ∈ calleesA (Γ.map (·.1)) (.letE x v body ty) → c ∈ Bad) :
     match Sem.eval n P ρ w v.toExpr with
     | .ok vv w1 => ∃ η1, η.le η1 ∧ ∃ env1 gv gw1, BlockS F gρ gw (letPrefix env st x v) (.ok (env1, .normal) gw1) ∧ WRel env η1 w1 gw1 ∧
-        lookupG env1 (vn x) = some gv ∧ toGV env η1 vv = some gv
+        lookupG env1 (vn x) = some gv ∧ VRel env η1 vv v.annTy gv
     | .fail (.panic k) w1 => ∀ rest, ∃ η1, η.le η1 ∧ ∃ gw1, BlockS F gρ gw (letPrefix env st x v ++ rest) (.fail (.panic k) gw1) ∧ WRel env η1 w1 gw1
     | _ => True := by
   simp only [fragA, Bool.and_eq_true] at hfrag
